@@ -13,8 +13,8 @@
     for all inputs is listed stage by stage, following DESIGN.md section C10. *)
 From Coq Require Import ZArith List Bool String Lia.
 From FV Require Import Model.PegSyntax Model.Peg Model.PegWf Model.ParserStrings Model.ParserAst Model.ParserActions
-     Model.Parser Gen.Grammar Proofs.PegProofs Proofs.ParserProofs Proofs.ParserLexProofs
-     Proofs.ParserEvals Proofs.ParserRoundTrip Proofs.ParserRoundTripEnum.
+     Model.Parser Model.ParserFiles Gen.Grammar Proofs.PegProofs Proofs.ParserProofs Proofs.ParserLexProofs
+     Proofs.ParserEvals Proofs.ParserRoundTrip Proofs.ParserRoundTripEnum Proofs.ParserPrefixProofs.
 Import ListNotations.
 Open Scope Z_scope.
 
@@ -111,6 +111,16 @@ Theorem c10_int_const_roundtrip : forall z follow f cr o es fr,
   Done true (VInt z) (mkst follow (o + Z.of_nat (List.length (render_int z))) es) fr.
 Proof. exact int_const_roundtrip. Qed.
 Print Assumptions c10_int_const_roundtrip.
+
+(** Scope prefixes (newScopePrefix, the two regular expressions modelled in Model/ParserStrings.v):
+    for every prefix written as words and {variables} joined by '.', where each variable consists of
+    word characters, begins with a letter and has a letter or digit second (what the code's
+    [identifier] expression demands) and no word contains '{', the prefix string is kept as written
+    and the variables are exactly the declared ones, in order. *)
+Theorem c10_prefix_vars : forall ts : list ptok, forallb tok_ok ts = true ->
+  new_scope_prefix (render_prefix ts) = inl (render_prefix ts, prefix_variables ts).
+Proof. exact new_scope_prefix_render. Qed.
+Print Assumptions c10_prefix_vars.
 
 (** * Stage 4 (the part that holds). Blanks and line breaks between tokens
     The rule _ consumes exactly a run of blanks (space, tab, CR) and the rule __ exactly a run of
@@ -219,6 +229,15 @@ Theorem c10_literal_roundtrip_refuted :
 Proof. exact w_literals. Qed.
 Print Assumptions c10_literal_roundtrip_refuted.
 
+(** ParseFrugal (model of parser.go:49-110 and validate): a top-level constant whose value names an
+    enum member is rejected, while the same reference is accepted as a field default (C10-F21) *)
+Theorem c10_enum_ref_constant_refuted :
+  is_ferr (parse_program [(main_frugal, cat [idl "enum Color { RED, GREEN }"; idl "const Color c = Color.GREEN"])] main_frugal) = true
+  /\ is_fok (parse_program [(main_frugal, cat [idl "enum Color { RED, GREEN }";
+                                                idl "struct S { 1: Color c = Color.GREEN }"])] main_frugal) = true.
+Proof. exact w_enum_ref_constant. Qed.
+Print Assumptions c10_enum_ref_constant_refuted.
+
 (** * Non-vacuity *)
 Example c10_enum_numbering_nonvacuous :
   let ev n v := (mkev None [n] v [], true) in
@@ -268,6 +287,20 @@ Proof.
       try (left; reflexivity); try (right; reflexivity); try discriminate.
   - vm_compute. reflexivity.
 Qed.
+
+(** the model of ParseFrugal resolves includes relative to the including file and detects cycles *)
+Example c10_includes_nonvacuous :
+  is_fok (parse_program [(main_frugal, idl "include ""sub/inc.thrift""");
+                         ([bytes_of_string "sub"; bytes_of_string "inc.thrift"], idl "include ""../base.frugal""");
+                         ([bytes_of_string "base.frugal"], idl "typedef i32 T")] main_frugal) = true
+  /\ is_ferr (parse_program [(main_frugal, idl "include ""a.frugal""");
+                             ([bytes_of_string "a.frugal"], idl "include ""main.frugal""")] main_frugal) = true.
+Proof. exact w_includes. Qed.
+
+Example c10_prefix_vars_nonvacuous :
+  let ts := [PW (bytes_of_string "foo"); PV (bytes_of_string "user_id"); PW (bytes_of_string "v1-*"); PV (bytes_of_string "ab")] in
+  forallb tok_ok ts = true /\ render_prefix ts = bytes_of_string "foo.{user_id}.v1-*.{ab}".
+Proof. vm_compute. split; reflexivity. Qed.
 
 (** a whole file through the model *)
 Example c10_parse_nonvacuous :
